@@ -219,20 +219,19 @@ theorem dclock_def (u : Bool) (ss : List Stream) (o0 : Out) (out : List Out)
   · rw [h1] at h
     exact run_dclock _ p o0 out h2 h5 h
 
-/-- **Totality, emulator mode.**  For per-stream sorted inputs whose first
-    corrected clock is not negative (`stream_step` compares against the
-    zero-initialised `lastclock`) and that pass the one-hour `check_clock_gate`,
+/-- **Totality, emulator mode.**  For per-stream sorted inputs — whatever the
+    sign of the corrected clocks: after `fix: do not compare the first clock of
+    a stream` the first event of a stream is not compared with the
+    zero-initialised `lastclock` — that pass the one-hour `check_clock_gate`,
     the replay never fails: the `update_clocks` guard and every `die()` of the
     heap are dead. -/
 theorem replay_total (ss : List Stream) (hl : ∀ s ∈ ss, Loaded s)
     (hsorted : ∀ s ∈ ss, SortedRest s)
-    (hfirst : ∀ s ∈ ss, ∀ e r, s.rest = e :: r → 0 ≤ e.clock + s.offset)
     (hgate : clockGate (ss.map (stepped false)) = true) :
     ∃ out, replay false ss = some out := by
   unfold replay
-  rcases playerInit_cases false ss hl with ⟨_, _, ⟨s, hs, e, r, hr, hlt⟩ | hg⟩ |
+  rcases playerInit_cases false ss hl with ⟨_, _, hg⟩ |
     ⟨p, h1, h2, h3, h4, h5, h6⟩
-  · have := hfirst s hs e r hr; omega
   · rw [hg] at hgate; cases hgate
   · rw [h1]
     simp only
@@ -282,25 +281,20 @@ theorem replay_total_unsorted (ss : List Stream) (hl : ∀ s ∈ ss, Loaded s) :
       omega
 
 /-- The emulator-mode replay is refused only through the documented guards:
-    a first corrected clock below zero, the clock gate, or (contrapositive of
-    `replay_total`) a stream that is not sorted. -/
+    the clock gate, or (contrapositive of `replay_total`) a stream that is not
+    sorted. -/
 theorem replay_rejects_only_by_guards (ss : List Stream) (hl : ∀ s ∈ ss, Loaded s)
     (h : replay false ss = none) :
-    (∃ s ∈ ss, ¬ SortedRest s) ∨ (∃ s ∈ ss, ∃ e r, s.rest = e :: r ∧ e.clock + s.offset < 0) ∨
-    clockGate (ss.map (stepped false)) = false := by
+    (∃ s ∈ ss, ¬ SortedRest s) ∨ clockGate (ss.map (stepped false)) = false := by
   by_cases h1 : ∃ s ∈ ss, ¬ SortedRest s
   · exact Or.inl h1
-  · by_cases h2 : ∃ s ∈ ss, ∃ e r, s.rest = e :: r ∧ e.clock + s.offset < 0
-    · exact Or.inr (Or.inl h2)
-    · by_cases h3 : clockGate (ss.map (stepped false)) = true
-      · exfalso
-        have g1 : ∀ s ∈ ss, SortedRest s := fun s hs =>
-          Classical.byContradiction fun hns => h1 ⟨s, hs, hns⟩
-        have g2 : ∀ s ∈ ss, ∀ e r, s.rest = e :: r → 0 ≤ e.clock + s.offset := fun s hs e r hr =>
-          Classical.byContradiction fun hns => h2 ⟨s, hs, e, r, hr, by omega⟩
-        obtain ⟨out, ho⟩ := replay_total ss hl g1 g2 h3
-        rw [ho] at h; cases h
-      · right; right; simpa using h3
+  · by_cases h3 : clockGate (ss.map (stepped false)) = true
+    · exfalso
+      have g1 : ∀ s ∈ ss, SortedRest s := fun s hs =>
+        Classical.byContradiction fun hns => h1 ⟨s, hs, hns⟩
+      obtain ⟨out, ho⟩ := replay_total ss hl g1 h3
+      rw [ho] at h; cases h
+    · right; simpa using h3
 
 /-! ## trace.c, system.c: independence of the enumeration order -/
 
@@ -426,10 +420,12 @@ example : (replay false exStreams).map (fun os => os.map fun o => (o.relpath, o.
     some [([97], 0, 10, 0), ([99], 0, 10, 0), ([97], 1, 20, 10), ([99], 1, 20, 10), ([97], 2, 20, 10)] := by
   decide
 
-/-- a stream whose first corrected clock is negative is refused in emulator
-    mode (hypothesis `hfirst` of `replay_total` is needed) but dumped in
-    unsorted mode -/
-example : replay false [{ Stream.load [97] [⟨3, 0⟩] with offset := -5 }] = none := by decide
+/-- a stream whose first corrected clock is negative is replayed like any
+    other (before `fix: do not compare the first clock of a stream` the
+    emulator refused it: "clock goes backwards 0 -> -2"); times stay relative to
+    the first event -/
+example : (replay false [{ Stream.load [97] [⟨3, 0⟩, ⟨9, 1⟩] with offset := -5 }]).map
+    (fun os => os.map fun o => (o.sclock, o.dclock)) = some [(-2, 0), (4, 6)] := by decide
 example : (replay true [{ Stream.load [97] [⟨3, 0⟩] with offset := -5 }]).isSome = true := by decide
 
 end Ovni.Props.C03
